@@ -266,7 +266,7 @@ def main():
         "engines": [
             {"name": "lean-model", "path": "lean/", "serves_properties": sorted(CLAIMED), "kind_free_text": "Lean 4 lake project: executable models (HapModel), lemmas (Proofs), property theorems (Props), line-protocol driver (Main.lean)"},
             {"name": "harness", "path": "harness/", "serves_properties": sorted(CLAIMED), "kind_free_text": "Python correspondence drivers, generators, independent reference implementations and property oracles; ./check entry point"},
-            {"name": "extractors", "path": "extract/", "serves_properties": [], "kind_free_text": "regenerate Lean tables/constants from /repo sources on every run"},
+            {"name": "extractors", "path": "extract/", "serves_properties": ["C01", "C02", "C03", "C04", "C05", "C06", "C08", "C09", "C10", "C17", "C18"], "kind_free_text": "regenerate Lean tables/constants from /repo sources on every run (routes + guard shapes, crypto constants, protocol labels/tags/status codes, SRP group, shipped characteristic and service definitions); theorems over them by decide / decide +kernel"},
         ],
         "checks": checks,
         "notes": "See DESIGN.md. known_findings.txt lists fixed defects (fix: commits in /repo) and recorded findings.",
